@@ -1,0 +1,54 @@
+//go:build verif
+// +build verif
+
+package leveldb
+
+// Lock event points (kinds 200-299) reported through verifEvent(kind, a, b) for the external verification
+// harness (/verif, property C09 "no call blocks forever and Close always returns").  The calls themselves are
+// one-line insertions `verifEvent(kind, site, 0)` in db_write.go, db_transaction.go, db_compaction.go and db.go;
+// with the verif tag off verifEvent is an empty inlined function.
+//
+// Conventions (they make the recorded order of events of different goroutines meaningful):
+//   - an ACQUIRE event is reported by the acquiring goroutine AFTER it got the lock,
+//   - a RELEASE / HAND-OVER event is reported by the releasing goroutine BEFORE it gives the lock up,
+//
+// so in the recorded sequence the hold intervals of one lock never overlap.
+//
+// `a` is the site: the public call (or background loop) the event point lies in.
+const (
+	// writeLockC (the channel of capacity 1 used as the write lock)
+	VerifEvWAcq  = 200 // write lock acquired by sending on writeLockC;           a = site
+	VerifEvWRel  = 201 // about to release the write lock (<-writeLockC);          a = site
+	VerifEvWGive = 202 // unlockWrite: about to hand the lock to the overflow writer (writeMergedC <- false)
+	VerifEvWTake = 203 // a writer whose merge request overflowed was handed the lock;  a = site
+	VerifEvWToTr = 204 // OpenTransaction succeeded: the write lock now belongs to the Transaction
+	VerifEvWToCE = 205 // SetReadOnly handed the write lock (with ErrReadOnly) to the compactionError goroutine
+
+	// compCommitLk
+	VerifEvCLock   = 210 // compCommitLk locked;            a = site
+	VerifEvCUnlock = 211 // about to unlock compCommitLk;   a = site
+
+	// calls
+	VerifEvCallBegin = 220 // a = call
+	VerifEvCallEnd   = 221 // a = call (reported by a deferred call: after every other action of the call)
+
+	// Close
+	VerifEvCloseC    = 230 // Close: about to close(closeC)
+	VerifEvCloseWait = 231 // Close: closeW.Wait() returned (both compaction goroutines have exited)
+)
+
+// Sites / calls.
+const (
+	VerifSiteWrite           = 1 // DB.Write (journal path)
+	VerifSitePutRec          = 2 // DB.Put / DB.Delete
+	VerifSiteOpenTransaction = 3
+	VerifSiteCommit          = 4 // Transaction.Commit
+	VerifSiteDiscard         = 5 // Transaction.Discard
+	VerifSiteCompactRange    = 6
+	VerifSiteSetReadOnly     = 7
+	VerifSiteClose           = 8
+	VerifSiteCompError       = 9  // compactionError goroutine (persistent-error state)
+	VerifSiteUnlockWrite     = 10 // unlockWrite (called by writeLocked on behalf of Write / putRec)
+	VerifSiteSetDone         = 11 // Transaction.setDone (called by Commit / Discard)
+	VerifSiteCompCommit      = 12 // compactionCommit (mCompaction / tCompaction goroutines)
+)
